@@ -112,7 +112,7 @@ def corpus_cases(prop: str):
 
 def exhaustive_cases():
     """all initial shapes of one key x all histories of <= 2 commands over that key from a small command
-    alphabet x 3 modes x {commit, exception} (thorough tier)"""
+    alphabet x 3 modes x {commit, Exception, non-Exception BaseException, cancellation} (thorough tier)"""
     cmds = ["set 0 t:9 - a", "set 0 t:9 8 nx", "set 0 t:9 - xx", "incr 0 1 8", "delete 0", "expire 0 16",
             "get 0", "getexpire 0", "exists 0", "getmany 0 2", "adv 2"]
     inits = [["adv 3"], ["set 0 i:1 - a", "adv 3"], ["set 0 i:1 19 a", "adv 3"], ["set 0 i:1 2 a", "adv 3"]]
@@ -120,7 +120,7 @@ def exhaustive_cases():
     for ini in inits:
         for h in hists:
             for mode in txhist.MODES:
-                for end in ("ok", "exc"):
+                for end in txhist.ENDS:
                     yield {"config": "facade", "init": ini, "events": [f"enter {mode}", *h, f"exit {end}", "getexpire 0"]}
 
 
@@ -219,7 +219,7 @@ def run_prop(chk: Check, prop: str) -> int:
                         "VERIF_SEED, thorough tier: all three modes (exhaustive over this space)",
         "exhaustive": bool(nexh),
         "exhaustive_cases": nexh,
-        "exhaustive_rule": "thorough tier: 4 initial shapes of one key x all histories of <= 2 commands from an 11-command alphabet x 3 modes x {commit, exception}",
+        "exhaustive_rule": "thorough tier: 4 initial shapes of one key x all histories of <= 2 commands from an 11-command alphabet x 3 modes x {commit, Exception, BaseException, cancellation}",
         "event_histogram": hist,
         "interesting_states_cases": interesting,
         "transaction_segments": nseg,
